@@ -122,6 +122,17 @@ Definition char_boundary (bs : list N) (i : N) : bool :=
   | b :: _ => negb (is_cont b)
   end.
 
+(* a continuation byte never follows an ASCII byte: the one consequence of UTF-8 validity the boundary
+   theorem needs (utf8_valid bs = true -> cont_ok bs = true is proved in Pos/BoundaryProofs.v) *)
+Fixpoint cont_ok (bs : list N) : bool :=
+  match bs with
+  | [] => true
+  | b :: r => match r with
+              | [] => true
+              | b2 :: _ => (negb (is_cont b2) || (128 <=? b)) && cont_ok r
+              end
+  end.
+
 (* ---------- canonical rendering (hex numbers separated by blanks) ---------- *)
 Fixpoint render_nums (l : list N) : list N :=
   match l with
